@@ -9,6 +9,7 @@ import AvroModel.Spec.Ocf
 import AvroModel.Spec.Observe
 import AvroModel.Impl.Single
 import AvroModel.Impl.Lifetimes
+import AvroModel.Spec.Pcf
 open Avro Avro.Impl Driver
 
 def Driver.ExtTable.toDenExt (t : ExtTable) : Spec.DenExt :=
@@ -610,6 +611,13 @@ def runPerm : P String := do
           else "ok"
     pure (" ; ".intercalate a ++ " | " ++ " ; ".intercalate b ++ " | " ++ " ; ".intercalate a2 ++ " # " ++ verdict)
 
+/-- The specification's own transformation of the document (`Spec/Pcf.lean`, the transcription
+    `C08_pcf_is_spec` is about) as a second, independent C08 oracle: when the document has no
+    forward reference and the transformation is defined on it, the canonical form must be its
+    text. `none` = the oracle does not apply. -/
+def specPcfOf (j : Json) : Option String :=
+  if Avro.Spec.Pcf.noForwardRefs j then Avro.Spec.Pcf.parsingCanonicalForm j else none
+
 /-- `schema <ok|err|any> <xtext> <json> <xpcf|->`: parse a schema document. Oracle (C07, C08):
     a specification-valid document parses and its Parsing Canonical Form is the one computed on
     the abstract schema by the generator (fullnames resolved per the specification); a document
@@ -638,6 +646,12 @@ def runSchema : P String := do
       else match expected, pcfR with
         | some e, .ok p => if e = p then "ok" else "VIOLATION the canonical form differs from the specification's (names resolved differently, or attributes/order not preserved)"
         | some _, .error _ => "VIOLATION no canonical form for a specification-valid document"
+        | none, _ => "ok"
+    let verdict :=
+      if verdict != "ok" || expect = "err" then verdict
+      else match specPcfOf j, pcfR with
+        | some t, .ok p => if t = p then "ok" else "VIOLATION the canonical form differs from the specification's transformation of the document (Spec.Pcf)"
+        | some _, .error _ => "VIOLATION no canonical form although the specification's transformation is defined"
         | none, _ => "ok"
     pure s!"ok {schemaMutToString S} {pcfStr} {tail} # {verdict}"
 
@@ -744,7 +758,7 @@ def runJudgeSchema : P String := do
   let toks ← pList tok
   let expect ← tok
   let _text ← pBytes
-  let _j ← pJson
+  let j ← pJson
   let expected ← (do
     match (← peek) with
     | some "-" => do let _ ← tok; pure none
@@ -763,6 +777,12 @@ def runJudgeSchema : P String := do
         | some _, none => "VIOLATION no canonical form for a specification-valid document"
         | none, _ => "ok")
     | _ => "ok"
+  let verdict :=
+    if verdict != "ok" || expect = "err" || toks.head? != some "ok" then verdict
+    else match specPcfOf j, after "pcf" with
+      | some t, some p => if strHex t = p then "ok" else "VIOLATION the canonical form differs from the specification's transformation of the document (Spec.Pcf)"
+      | some _, none => "VIOLATION no canonical form although the specification's transformation is defined"
+      | none, _ => "ok"
   pure s!"judged # {verdict}"
 
 /-- `judge-c11 <k> <implementation outcomes separated by ;> <case>`: all back-ends agree. -/
